@@ -123,6 +123,39 @@ func buildEncryptedFile() ([]byte, []string) {
 	return encBytes, encWant
 }
 
+var deepOnce sync.Once
+var deepBytes []byte
+var deepWant string
+
+// buildDeepFile writes (by hand: the Writer refuses it) a file whose object 7 is nested 300
+// arrays deep, and returns it with the error a fresh Reader returns for it.
+func buildDeepFile() ([]byte, string) {
+	deepOnce.Do(func() {
+		var b bytes.Buffer
+		b.WriteString("%PDF-1.7\n")
+		offs := map[int]int{}
+		obj := func(n int, body string) {
+			offs[n] = b.Len()
+			fmt.Fprintf(&b, "%d 0 obj\n%s\nendobj\n", n, body)
+		}
+		obj(1, "<< /Type /Catalog /Pages 2 0 R >>")
+		obj(2, "<< /Type /Pages /Kids [] /Count 0 >>")
+		obj(7, strings.Repeat("[", 300)+"1"+strings.Repeat("]", 300))
+		xr := b.Len()
+		fmt.Fprintf(&b, "xref\n0 3\n0000000000 65535 f \n%010d 00000 n \n%010d 00000 n \n7 1\n%010d 00000 n \n", offs[1], offs[2], offs[7])
+		fmt.Fprintf(&b, "trailer\n<< /Size 8 /Root 1 0 R >>\nstartxref\n%d\n%%%%EOF\n", xr)
+		deepBytes = b.Bytes()
+		r, err := pdf.NewReader(bytes.NewReader(deepBytes), int64(len(deepBytes)), nil)
+		must(err)
+		_, err = r.Get(pdf.NewReference(7, 0), true)
+		if err == nil {
+			panic("the deeply nested object is read without an error")
+		}
+		deepWant = err.Error()
+	})
+	return deepBytes, deepWant
+}
+
 func must(err error) {
 	if err != nil {
 		panic(err)
@@ -629,6 +662,44 @@ func scenarios() []*scenario {
 				}
 				if c.err != nil {
 					return &failure{"encrypted-get-differs", fmt.Sprintf("thread %d: %s: %v; alone every object decrypts to what was written", c.thread, c.what, c.err)}
+				}
+			}
+			return nil
+		}})
+
+	// S11: failing Gets (an object nested beyond the scanner's depth limit), twice per thread and
+	// on two independent Readers: every call returns the error it returns alone
+	add(&scenario{name: "S11-failing-gets", threads: 2, boundQuick: 2, boundThorough: -1,
+		bodies: func(fx *fixture) []func() {
+			data, want := buildDeepFile()
+			get := func(tid int) func() {
+				return func() {
+					er, err := pdf.NewReader(bytes.NewReader(data), int64(len(data)), nil)
+					must(err)
+					for round := 0; round < 2; round++ {
+						guard(fx, tid, fmt.Sprintf("Get(deep) round %d", round), func() (any, error) {
+							_, err := er.Get(pdf.NewReference(7, 0), true)
+							if err == nil {
+								return nil, fmt.Errorf("Get of the deeply nested object succeeds")
+							}
+							if err.Error() != want {
+								return nil, fmt.Errorf("the error has %d bytes; alone the same call returns an error of %d bytes (%.80q... vs %.80q...)", len(err.Error()), len(want), err.Error(), want)
+							}
+							return "ok", nil
+						})
+						fx.yield("between-gets")
+					}
+				}
+			}
+			return []func(){get(0), get(1)}
+		},
+		after: func(fx *fixture) *failure {
+			for _, c := range fx.calls {
+				if c.panic != nil {
+					return &failure{"panic:failing-get", fmt.Sprint(c.panic)}
+				}
+				if c.err != nil {
+					return &failure{"failing-get-differs", fmt.Sprintf("thread %d: %s: %v", c.thread, c.what, c.err)}
 				}
 			}
 			return nil
